@@ -470,3 +470,95 @@ pub fn put_result_structural() -> EngineReport {
     rep.detail = json!({"values": vals.len(), "ordered_pairs": vals.len() * vals.len()});
     rep
 }
+
+// ------------------------------------------------------------------ C17: conversions with a hidden RandomState
+
+/// `RawLRU::from(..)` / `collect()` build the cache with a fresh `RandomState` that the caller
+/// cannot supply, so the hasher cannot be enumerated: the same conversion of an ordered source is
+/// repeated under many fresh states and every repetition must produce the same recency order and
+/// the same next eviction (statistical over the hidden seeds; stated as such in the evidence).
+pub fn conversion_determinism(tier: Tier) -> EngineReport {
+    let mut rep = EngineReport { name: "conversion-determinism (hidden RandomState, repeated)".into(), exhaustive: false, ..Default::default() };
+    let reps = if tier == Tier::Thorough { 200 } else { 40 };
+    type Obs = (Vec<u64>, Vec<u64>, String);
+    fn observe(mut c: RawLRU<u64, u64>) -> Obs {
+        let order: Vec<u64> = c.iter().map(|(k, _)| *k).collect();
+        let lru: Vec<u64> = c.keys_lru().copied().collect();
+        let r = format!("{:?}", c.put(1_000, 0));
+        (order, lru, r)
+    }
+    let mut cases: Vec<(String, Box<dyn Fn() -> Obs>)> = vec![];
+    for n in [2u64, 3, 4, 7] {
+        let items: Vec<(u64, u64)> = (0..n).map(|i| (i * 7 % 11, i)).collect();
+        let it = items.clone();
+        cases.push((format!("RawLRU::from(Vec) {:?}", items), Box::new(move || observe(RawLRU::from(it.clone())))));
+        let it = items.clone();
+        cases.push((format!("RawLRU::from(&[..]) {:?}", items), Box::new(move || observe(RawLRU::from(&it[..])))));
+        let it = items.clone();
+        cases.push((format!("RawLRU::from(VecDeque) {:?}", items), Box::new(move || observe(RawLRU::from(it.iter().copied().collect::<VecDeque<_>>())))));
+        let it = items.clone();
+        cases.push((format!("RawLRU::from(LinkedList) {:?}", items), Box::new(move || observe(RawLRU::from(it.iter().copied().collect::<LinkedList<_>>())))));
+        let it = items.clone();
+        cases.push((format!("RawLRU::from(BTreeMap) {:?}", items), Box::new(move || observe(RawLRU::from(it.iter().copied().collect::<BTreeMap<_, _>>())))));
+        let it = items.clone();
+        cases.push((format!("RawLRU::from(BTreeSet) {:?}", items), Box::new(move || observe(RawLRU::from(it.iter().copied().collect::<BTreeSet<_>>())))));
+        let it = items.clone();
+        cases.push((format!("collect::<RawLRU>() {:?}", items), Box::new(move || observe(it.iter().copied().collect::<RawLRU<u64, u64>>()))));
+    }
+    cases.push(("RawLRU::from([(K,V); 3])".into(), Box::new(|| observe(RawLRU::from([(5u64, 0u64), (3, 1), (9, 2)])))));
+    // the same for the caches whose constructors take no hasher: RandomState inside, behaviour must not show it
+    cases.push((
+        "TwoQueueCache::new(3): put 5,3,9,3,7,5 then order".into(),
+        Box::new(|| {
+            let mut c = TwoQueueCache::<u64, u64>::new(3).unwrap();
+            let mut rs = vec![];
+            for k in [5u64, 3, 9, 3, 7, 5, 1, 9] {
+                rs.push(format!("{:?}", c.put(k, k)));
+            }
+            (c.recent_keys().copied().chain(c.frequent_keys().copied()).collect(), c.ghost_keys().copied().collect(), rs.join(","))
+        }),
+    ));
+    cases.push((
+        "AdaptiveCache::new(2): put 5,3,9,5,7,3 then order".into(),
+        Box::new(|| {
+            let mut c = AdaptiveCache::<u64, u64>::new(2).unwrap();
+            let mut rs = vec![];
+            for k in [5u64, 3, 9, 5, 7, 3, 9, 1] {
+                rs.push(format!("{:?}", c.put(k, k)));
+            }
+            (c.recent_keys().copied().chain(c.frequent_keys().copied()).collect(), c.recent_evict_keys().copied().chain(c.frequent_evict_keys().copied()).collect(), rs.join(","))
+        }),
+    ));
+    for (name, f) in &cases {
+        let first = match catch_unwind(AssertUnwindSafe(|| f())) {
+            Ok(o) => o,
+            Err(_) => {
+                let _ = crate::panics::take_last();
+                continue; // panics are C05's business
+            }
+        };
+        let mut distinct = 1;
+        for _ in 1..reps {
+            rep.evaluations += 1;
+            if let Ok(o) = catch_unwind(AssertUnwindSafe(|| f())) {
+                if o != first {
+                    distinct += 1;
+                    rep.violations.push(Extra {
+                        finding: Finding::new("C17", "same_result_under_every_hidden_hash_state", name.split('(').next().unwrap_or("").to_string(), format!("{} gave {:?} once and {:?} another time (fresh RandomState each time)", name, first, o)),
+                        case: json!({"engine": "conversions", "case": name}),
+                        count: 1,
+                    });
+                    break;
+                }
+            }
+        }
+        let _ = distinct;
+        rep.states += 1;
+    }
+    rep.distinct_nontrivial = cases.len() as u64;
+    rep.transitions = rep.evaluations;
+    rep.samples = vec![json!({"engine": "conversions", "case": cases[0].0, "repetitions": reps})];
+    rep.capped = Some(format!("{} repetitions per case: the RandomState of these constructors cannot be supplied, so its seeds are sampled, not enumerated", reps));
+    rep.detail = json!({"cases": cases.len(), "repetitions_per_case": reps});
+    rep
+}
